@@ -10,7 +10,7 @@ GENERATORS = [
     (hist.g_membrane_method, 8), (hist.g_thermo, 5), (hist.g_composition_convert, 3), (hist.g_permeance_op, 3),
     (hist.g_component_method, 3), (hist.g_program, 2), (hist.g_measurements_from, 4), (hist.g_fit, 9), (hist.g_fit_vle, 1),
     (hist.g_fn_op, 6), (hist.g_make_curve, 4), (hist.g_curve_metric, 5), (hist.g_pool_measurements, 2),
-    (hist.g_new_mixture, 2), (hist.g_load_membrane, 3),
+    (hist.g_new_mixture, 2), (hist.g_load_membrane, 3), (hist.g_copy_object, 4),
 ]
 
 
@@ -41,6 +41,10 @@ def gen_plan(verif_seed, run, new_interp_every=40):
             if op is None:
                 continue
         op["id"] = len(ops)
+        if op["fn"] in ("ideal_diffusion_curve", "non_ideal_diffusion_curve", "ideal_isothermal_process", "ideal_non_isothermal_process",
+                        "non_ideal_isothermal_process", "non_ideal_non_isothermal_process", "measurements_from", "fit", "find_best_fit",
+                        "make_curve", "load_membrane") and "keep" not in op and o.random() < 0.3:
+            op["keep"] = True        # the caller holds on to what this call returned
         op["clock"] = {"gap": c.choice([1, 1000, 60_000_000, c.randint(1, 3 * 86400 * 1_000_000)]),
                        "step": c.choice([0, 1, 1, 1000, -1000, 3_600_000_000])}
         ops.append(op)
